@@ -217,7 +217,9 @@ func (e *c13Env) descr(c ContractResolver) string {
 	return fmt.Sprintf("?:%T", c)
 }
 
-// afterWrite is called with wmu held after a durable write committed.
+// afterWrite is called after a stop point: a durable write committed (wmu
+// held) or a volatile effect was performed (upstream messages delivered, an
+// input offered to the sweeper, a transaction published).
 func (e *c13Env) afterWrite(ep int, line string) {
 	e.mu.Lock()
 	e.writes++
@@ -261,6 +263,18 @@ func (e *c13Env) effect(ep int, format string, a ...interface{}) bool {
 	defer e.mu.Unlock()
 	e.pf("%s", fmt.Sprintf(format, a...))
 	return true
+}
+
+// effectPoint marks a stop point directly after a volatile effect (before the
+// next durable write).
+func (e *c13Env) effectPoint(ep int, what string) {
+	// serialised with the durable writes, so that "dead" is decided once
+	e.wmu.Lock()
+	defer e.wmu.Unlock()
+	if !e.isAlive(ep) {
+		return
+	}
+	e.afterWrite(ep, fmt.Sprintf("K # ep=%d after=%s", ep, what))
 }
 
 // --- database decorator ----------------------------------------------------
@@ -467,6 +481,9 @@ func (s *c13Sweeper) SweepInput(inp input.Input, _ sweep.Params) (
 	e.sweepSubs[op] = append(e.sweepSubs[op], ch)
 	// A sweep never confirms instantly: if the chain already allows it, it
 	// confirms at the next environment step.
+	e.mu.Unlock()
+	e.effectPoint(s.ep, "sweep")
+	e.mu.Lock()
 	return ch, nil
 }
 
@@ -556,6 +573,8 @@ type c13Step struct {
 type c13Scenario struct {
 	name  string
 	hold  bool
+	// startHeight is the best height when the node first starts.
+	startHeight int32
 	spec  []string // SPEC lines (contract plan for the model)
 	htlcs map[HtlcSetKey][]channeldb.HTLC
 	// closeEvent delivers the close event to a live arbitrator.
@@ -601,6 +620,8 @@ type c13Builder struct {
 	height     uint32
 	confHtlcs  []channeldb.HTLC
 	outRes     []lnwallet.OutgoingHtlcResolution
+	inRes      []lnwallet.IncomingHtlcResolution
+	preimages  map[string]lntypes.Preimage
 	labels     map[wire.OutPoint]string
 	witness    map[string]wire.TxWitness
 	spec       []string
@@ -611,9 +632,10 @@ func c13NewBuilder(local bool, tag byte, height uint32) *c13Builder {
 	tx := c13CloseTx(tag)
 	return &c13Builder{
 		local: local, closeTx: tx, commitHash: tx.TxHash(), height: height,
-		labels:   map[wire.OutPoint]string{},
-		witness:  map[string]wire.TxWitness{},
-		remoteTx: map[string]*wire.MsgTx{},
+		labels:    map[wire.OutPoint]string{},
+		witness:   map[string]wire.TxWitness{},
+		remoteTx:  map[string]*wire.MsgTx{},
+		preimages: map[string]lntypes.Preimage{},
 	}
 }
 
@@ -681,8 +703,32 @@ func (b *c13Builder) outgoing(idx uint64, expiry uint32, fate string) {
 		}
 		return 0
 	}
-	b.spec = append(b.spec, fmt.Sprintf("SPEC c label=%s kind=%s two=%d claims=%d idx=%d expiry=%d",
-		l, kind, b2i(b.local), b2i(fate == "claim"), idx, expiry))
+	_ = fate
+	b.spec = append(b.spec, fmt.Sprintf("SPEC c label=%s kind=%s two=%d idx=%d expiry=%d",
+		l, kind, b2i(b.local), idx, expiry))
+}
+
+// incoming adds an incoming HTLC with an output on the confirmed (remote)
+// commitment: resolved by an incoming contest resolver that turns into a
+// success resolver once the preimage is known, or gives up at the expiry.
+func (b *c13Builder) incoming(idx uint64, expiry uint32) {
+	pre, hash := c13Preimage(byte(idx))
+	op := wire.OutPoint{Hash: b.commitHash, Index: uint32(idx)}
+	l := fmt.Sprintf("h%d", idx)
+	b.labels[op] = l
+	b.confHtlcs = append(b.confHtlcs, channeldb.HTLC{
+		Incoming: true, Amt: 10_000_000, HtlcIndex: idx,
+		OutputIndex: int32(idx), RefundTimeout: expiry, RHash: hash,
+	})
+	b.inRes = append(b.inRes, lnwallet.IncomingHtlcResolution{
+		ClaimOutpoint: op,
+		SweepSignDesc: testSignDesc,
+		CsvDelay:      4,
+	})
+	// our direct preimage sweep on their commitment: <sig> <preimage> <script>
+	b.witness[l] = wire.TxWitness{{0x30}, pre[:], testSignDesc.WitnessScript}
+	b.preimages[l] = pre
+	b.spec = append(b.spec, fmt.Sprintf("SPEC c label=%s kind=ic two=0 idx=%d expiry=%d", l, idx, expiry))
 }
 
 func c13Dust(idx uint64, incoming bool) channeldb.HTLC {
@@ -713,6 +759,9 @@ func c13NewEnv(t *testing.T, dir string, scn *c13Scenario, crashAt []int) *c13En
 		ourWitness:  map[string]wire.TxWitness{},
 		labels:      map[wire.OutPoint]string{},
 		height:      100,
+	}
+	if scn.startHeight != 0 {
+		e.height = scn.startHeight
 	}
 	obs, err := newBoltArbitratorLog(db, ChannelArbitratorConfig{}, chainhash.Hash{}, wire.OutPoint{})
 	if err != nil {
@@ -775,6 +824,7 @@ func (r *c13Run) start() {
 		e.mu.Lock()
 		e.published++
 		e.mu.Unlock()
+		e.effectPoint(ep, "publish")
 		return nil
 	}
 	cfg.DeliverResolutionMsg = func(msgs ...ResolutionMsg) error {
@@ -791,6 +841,9 @@ func (r *c13Run) start() {
 			e.mu.Lock()
 			e.msgs = append(e.msgs, fmt.Sprintf("%d:%s", m.HtlcIndex, kind))
 			e.mu.Unlock()
+		}
+		if len(msgs) > 0 {
+			e.effectPoint(ep, "msgs")
 		}
 		return nil
 	}
@@ -1158,6 +1211,25 @@ func c13StepRemoteSpend(label string, op wire.OutPoint, tx *wire.MsgTx) c13Step 
 	}}
 }
 
+// c13StepPreimage: the preimage of an incoming htlc becomes known to the
+// preimage beacon (durable in the witness cache).
+func c13StepPreimage(label string, pre lntypes.Preimage) c13Step {
+	return c13Step{name: "preimage " + label, do: func(r *c13Run) {
+		e := r.env
+		e.mu.Lock()
+		e.preimages[pre.Hash()] = pre
+		subs := append([]chan lntypes.Preimage(nil), e.beaconSubs...)
+		e.pf("X preimage %s", label)
+		e.mu.Unlock()
+		for _, ch := range subs {
+			select {
+			case ch <- pre:
+			default:
+			}
+		}
+	}}
+}
+
 func c13StepRelease() c13Step {
 	return c13Step{name: "release", do: func(r *c13Run) {
 		select {
@@ -1221,6 +1293,12 @@ func c13Unilateral(name string, kind string, near, hold bool, rng *rand.Rand) *c
 	if near {
 		b.outgoing(12, 103, "timeout")
 	}
+	if !local {
+		// h13: incoming, we learn the preimage and claim; h14: incoming, never
+		// learned, given up at its expiry.
+		b.incoming(13, 170)
+		b.incoming(14, 155)
+	}
 	dustOut := c13Dust(20, false)
 	dustIn := c13Dust(21, true)
 	dangling := channeldb.HTLC{Incoming: false, Amt: 5_000_000, HtlcIndex: 30,
@@ -1275,10 +1353,11 @@ func c13Unilateral(name string, kind string, near, hold bool, rng *rand.Rand) *c
 		"SPEC dust idx=20",
 		"SPEC dangling idx=30",
 		"SPEC final idx=21",
-		fmt.Sprintf("SPEC close kind=%s near=%d res=1", ck, nearI),
+		fmt.Sprintf("SPEC close kind=%s height=%d delta=5", ck, closeHeight),
 	)
+	_ = nearI
 	commitSet := CommitSet{ConfCommitKey: fn.Some(confKey), HtlcSets: sets}
-	hres := &lnwallet.HtlcResolutions{OutgoingHTLCs: b.outRes}
+	hres := &lnwallet.HtlcResolutions{OutgoingHTLCs: b.outRes, IncomingHTLCs: b.inRes}
 	spendDetail := &chainntnfs.SpendDetail{
 		SpenderTxHash: &b.commitHash, SpendingTx: b.closeTx, SpendingHeight: closeHeight,
 	}
@@ -1338,6 +1417,9 @@ func c13Unilateral(name string, kind string, near, hold bool, rng *rand.Rand) *c
 		{c13StepConfirmable("commit")},
 		{c13StepConfirmable("anchor")},
 	}
+	if !local {
+		groups = append(groups, []c13Step{c13StepPreimage("h13", b.preimages["h13"]), c13StepConfirmable("h13")})
+	}
 	if near {
 		groups[0] = []c13Step{c13StepHeight(104), c13StepConfirmable("h12")}
 		if local {
@@ -1377,7 +1459,7 @@ func c13Breach(name string, hold bool) *c13Scenario {
 		"SPEC c label=breach kind=br two=0 claims=0 idx=0 expiry=0",
 		"SPEC c label=anchor kind=an two=0 claims=0 idx=0 expiry=0",
 		"SPEC breachfail idx=10",
-		"SPEC close kind=breach near=0 res=1",
+		"SPEC close kind=breach height=100 delta=5",
 	}
 	scn.closeEvent = func(a *ChannelArbitrator) {
 		a.cfg.ChainEvents.ContractBreach <- &BreachCloseInfo{
@@ -1423,7 +1505,7 @@ func c13Coop(name string, afterBroadcast bool) *c13Scenario {
 	tx := c13CloseTx(0x55)
 	sets := map[HtlcSetKey][]channeldb.HTLC{}
 	scn := &c13Scenario{name: name, closeTx: tx, htlcs: sets}
-	scn.spec = []string{"SPEC close kind=coop near=0 res=0"}
+	scn.spec = []string{"SPEC close kind=coop height=100 delta=5"}
 	scn.closeEvent = func(a *ChannelArbitrator) {
 		a.cfg.ChainEvents.CooperativeClosure <- &CooperativeCloseInfo{
 			ChannelCloseSummary: &channeldb.ChannelCloseSummary{
@@ -1440,7 +1522,12 @@ func c13Coop(name string, afterBroadcast bool) *c13Scenario {
 
 func c13Scenarios(seed int64) []*c13Scenario {
 	rng := rand.New(rand.NewSource(seed))
+	// own force close decided by a new block while in StateDefault
+	localB := c13Unilateral("localB", "local", true, false, rng)
+	localB.startHeight = 90
+	localB.steps = append([]c13Step{c13StepHeight(99)}, localB.steps...)
 	return []*c13Scenario{
+		localB,
 		c13Unilateral("local", "local", true, false, rng),
 		c13Unilateral("localU", "local", false, false, rng),
 		c13Unilateral("remote", "remote", false, false, rng),
@@ -1495,7 +1582,7 @@ func c13RunCase(t *testing.T, scns []*c13Scenario, seed int64, c c13Case, out *o
 	if len(cr) > 0 {
 		crs = strings.Join(cr, ",")
 	}
-	e.caseHeader = fmt.Sprintf("%s scn=%s hold=%v crash=%s", c.id(scns), scn.name, scn.hold, crs)
+	e.caseHeader = fmt.Sprintf("%s scn=%s hold=%v crash=%s h0=%d", c.id(scns), scn.name, scn.hold, crs, e.height)
 	r := &c13Run{t: t, env: e, scn: scn}
 	r.run()
 	return e.buf.String(), e.writes
